@@ -1,6 +1,6 @@
 (** * C02 — Torque propagation and balance along the chain at every instant.  Statements only; generic in the arithmetic. *)
 From Coq Require Import ZArith String List Bool PrimFloat Reals.
-From GP Require Import ArithDef FloatUtil UnitsCore PyUnits RealArith UnitsR QOps Motor Solver SolverProofs SolverSI ChainSI Examples.
+From GP Require Import ArithDef FloatUtil UnitsCore PyUnits RealArith UnitsR QOps Motor Solver SolverProofs SolverSegs SolverSI ChainSI Examples.
 Import ListNotations.
 
 (** at every recorded instant (t, s) of every reachable state:
@@ -17,6 +17,17 @@ Theorem C02_torque_balance : forall (A : Arith) (c : @chain A) load ops p w st t
                    lastq (s_ltq s) = Ok lt /\ load_linked (c_elems c) (s_ltq s)) /\
   pointwise q_sub (s_dtq s) (s_ltq s) (s_tq s).
 Proof. exact (@reachable_torque). Qed.
+
+(** the same when the user re-declares things BETWEEN simulations (another external torque on the last element, a mating declared
+    again with another efficiency: an efficiency sweep on the same objects).  The schedule is a list of segments, each with the chain
+    and load in force; every later segment starts with Powertrain.reset() and carries the powertrain's frozen self-locking flag
+    (C20).  Every recorded instant of the final history obeys the relations of the system IN FORCE AT THE END -- a solver that kept
+    the efficiencies it saw when it was created would not (seeded change C02d). *)
+Theorem C02_redeclared_between_simulations : forall (A : Arith) (c0 : @chain A) l0 ops0 (rest : list (@seg A)) p w st t s,
+  segs_ok (c_selflock c0) rest -> exec_segs ((c0, l0, ops0) :: rest) (initial p w) = Ok st -> In (t, s) (y_hist st) ->
+  let cl := fst (last_system c0 l0 rest) in let ll := snd (last_system c0 l0 rest) in
+  kin_ok cl s /\ torque_ok cl ll t s /\ motion_ok cl s /\ lock_ok cl s.
+Proof. exact (@segs_final_history). Qed.
 
 (** end to end, in SI, whatever the units (over the reals): with [Gg c] the product over the chain of (efficiency x ratio), the output
     element's driving torque is the motor's times [Gg c], and the motor's load torque is the output element's divided by [Gg c] *)
@@ -35,3 +46,4 @@ Example C02_nonvacuous : Nat.eqb (hist_len (ex_final false 5)) 21 && moved (ex_f
 Proof. vm_compute. reflexivity. Qed.
 
 Print Assumptions C02_torque_balance.
+Print Assumptions C02_redeclared_between_simulations.
